@@ -97,11 +97,15 @@ def _retry(kindname):
         if len(model.calls) != 2:
             return
         a, b = model.calls
-        h.ensures("retry.same_x_y_weights", _same(a["x"], b["x"]) and _same(a["y"], b["y"]) and _same(a["weights"], b["weights"]))
-        h.ensures("retry.same_tau", V(to_t(a["taus"]) == to_t(b["taus"])))
-        h.ensures("retry.same_lambda", V(to_t(a["lambda_"]) == to_t(b["lambda_"])))
-        h.ensures("retry.same_intercept", V(to_b(a["fit_intercept"]) == to_b(b["fit_intercept"])))
-        h.ensures("retry.without_weight_normalisation", b["normalize_weights"] is False)
+
+        def rps(ev):
+            return {"target": "verif_replays:fit_model_retry", "args": [kindname], "check": "result['exc'] is None and result['n_calls'] == 2 and result['retry_is_the_same_request']"}
+
+        h.ensures("retry.same_x_y_weights", _same(a["x"], b["x"]) and _same(a["y"], b["y"]) and _same(a["weights"], b["weights"]), replay=rps)
+        h.ensures("retry.same_tau", V(to_t(a["taus"]) == to_t(b["taus"])), replay=rps)
+        h.ensures("retry.same_lambda", V(to_t(a["lambda_"]) == to_t(b["lambda_"])), replay=rps)
+        h.ensures("retry.same_intercept", V(to_b(a["fit_intercept"]) == to_b(b["fit_intercept"])), replay=rps)
+        h.ensures("retry.without_weight_normalisation", b["normalize_weights"] is False, replay=rps)
 
     return retry
 
